@@ -6,8 +6,10 @@ subclass instances that also carry `slot` and `repo.repo_id`; a restriction tree
 biased towards category/package leaves: atoms, CategoryDep/PackageDep, PackageRestriction(category|package,
 exact|glob|regex|value-level And/Or/JustOne/AtMostOne), negation on the value, on the PackageRestriction
 wrapper, on boolean nodes and through `restriction.Negate`, And/Or (few JustOne/AtMostOne) combinations
-mixing cat-constrained, pkg-constrained and unconstrained (version/slot/repo/AlwaysBool) leaves; a second
-restriction used as filter.
+mixing cat-constrained, pkg-constrained and unconstrained (version/slot/repo/AlwaysBool) leaves -- 40% of
+the cases come from a clause-structured generator (Or of And-clauses with a chosen category/package/
+unconstrained shape per clause) so that every branch of `_identify_candidates` is exercised (classes
+`branch:*`); a second restriction used as filter.
 
 Oracle = brute force over *all* packages of the repository (built from the same dict, no pruning) with
 `restrict.match` (match itself is checked by C06/C04):
@@ -51,8 +53,9 @@ LEVEL_NOTE = (
     "dict, PMS version reference for ordering. No proof of absence beyond the generated cases."
 )
 RULE = (
-    "hypothesis cases (1-3 SimpleTree repos, restriction tree over <=4 distinct leaves biased to category/"
-    "package); non-trivial = restriction is not a bare atom, constrains category or package and has >=1 negation "
+    "hypothesis cases: 1-3 SimpleTree repos x restriction (35% random trees over <=4 distinct leaves biased to "
+    "category/package, 25% category/package-only trees, 40% clause-structured Or-of-And mixes of category / package / "
+    "unconstrained leaves aimed at each _identify_candidates branch); non-trivial = restriction is not a bare atom, constrains category or package and has >=1 negation "
     "or an Or/JustOne/AtMostOne node; distinct = canonical JSON of (repos, restriction)"
 )
 ASSUMPTIONS = [
@@ -60,7 +63,7 @@ ASSUMPTIONS = [
     "an unversioned (cat, pkg) pair matches iff the restriction matches UnversionedCPV(cat, pkg)",
     "sorter order for sorted/reverse-sorted = (category, package, PMS version order)",
 ]
-BUDGET = {"quick": 50, "thorough": 900}
+BUDGET = {"quick": 35, "thorough": 900}
 
 CATS = ["app-a", "app-b", "dev-a", "dev-util"]
 PKGS = ["foo", "fooBar", "bar", "Baz"]
@@ -431,10 +434,65 @@ def draw_repo(draw, rid):
     return {"id": rid, "tree": tree}
 
 
-def cases(profile=PROFILE, **treekw):
+PROF_CAT = G.Profile(CATS, PKGS, VERS, attrs=("category",), weights={"@always": 0}, atoms=False)
+PROF_PKG = G.Profile(CATS, PKGS, VERS, attrs=("package",), weights={"@always": 0}, atoms=False)
+PROF_FREE = G.Profile(CATS, PKGS, VERS, ("0", "1"), (), REPO_IDS[:2], attrs=("fullver", "slot", "repo.repo_id"),
+                      weights={"fullver": 3, "@always": 1}, atoms=False)
+
+
+def _simple_leaf(draw, attr):
+    """category/package leaf, half of the time a plain positive exact match (the pruning shortcuts)"""
+    pool = CATS if attr == "category" else PKGS
+    r = G._int(draw, 0, 9)
+    if r < 3:
+        return {"k": "dep", "cls": "CategoryDep" if attr == "category" else "PackageDep", "s": G._pick(draw, pool), "neg": False}
+    if r < 5:
+        return {"k": "pr", "attr": attr, "neg": False, "v": {"k": "exact", "s": G._pick(draw, pool), "cs": True, "neg": False}}
+    return G.pkg_leaf(draw, PROF_CAT if attr == "category" else PROF_PKG)
+
+
+def draw_structured(draw):
+    """Or of 1-3 clauses, each an And over a chosen mix of category / package / unconstrained leaves, so that the
+    DNF shapes `_identify_candidates` distinguishes (uniform, mixed-cat, mixed-pkg, mixed-both, unconstrained) all occur"""
+    shapes = ["c", "p", "cp", "cp", "c", "p", "cc", "pp", "n"]
+    clauses = []
+    for _ in range(G._pick(draw, [1, 2, 2, 2, 3, 3])):
+        shape = G._pick(draw, shapes)
+        members = []
+        for ch in shape:
+            if ch == "c":
+                members.append(_simple_leaf(draw, "category"))
+            elif ch == "p":
+                members.append(_simple_leaf(draw, "package"))
+            else:
+                members.append(G.pkg_leaf(draw, PROF_FREE))
+        if shape != "n" and G._int(draw, 0, 5) == 0:
+            if G._boold(draw):
+                members.append(G.pkg_leaf(draw, PROF_FREE))
+            else:
+                a = G.pkg_leaf(draw, PROFILE_CP)
+                members.append(a)
+        if len(members) == 1 and G._boold(draw):
+            clauses.append(members[0])
+        else:
+            kind = "and" if G._int(draw, 0, 5) else "or"
+            clauses.append({"k": kind, "neg": G._int(draw, 0, 9) == 0, "nt": G._pick(draw, ["package", None]), "c": members})
+    if len(clauses) == 1 and G._boold(draw):
+        root = clauses[0]
+    else:
+        root = {"k": "or" if G._int(draw, 0, 5) else "and", "neg": G._int(draw, 0, 9) == 0,
+                "nt": G._pick(draw, ["package", None]), "c": clauses}
+    if G._int(draw, 0, 4) == 0:
+        # a common conjunct multiplies into every clause
+        extra = _simple_leaf(draw, G._pick(draw, ["category", "package"])) if G._boold(draw) else G.pkg_leaf(draw, PROF_FREE)
+        root = {"k": "and", "neg": False, "nt": None, "c": [root, extra]}
+    return root
+
+
+def cases(profile=PROFILE, structured=False, **treekw):
     from hypothesis import strategies as st
 
-    kw = dict(max_depth=3, max_leaves=6, max_distinct=4, empty_rate=40,
+    kw = dict(max_depth=3, max_leaves=6, max_distinct=4, empty_rate=40, top_bool=True,
               kinds=("and", "or", "and", "or", "and", "or", "and", "or", "one", "most"))
     kw.update(treekw)
 
@@ -442,7 +500,10 @@ def cases(profile=PROFILE, **treekw):
     def _s(draw):
         n = G._pick(draw, [1, 1, 2, 2, 3])
         repos = [draw_repo(draw, REPO_IDS[i]) for i in range(n)]
-        restrict = G.draw_tree(draw, profile, **kw)
+        if structured:
+            restrict = draw_structured(draw)
+        else:
+            restrict = G.draw_tree(draw, profile, **dict(kw, top_bool=G._int(draw, 0, 9) != 0))
         case = {"repos": repos, "restrict": restrict}
         if G._int(draw, 0, 2) == 0:
             case["filter"] = G.draw_tree(draw, profile, max_depth=2, max_leaves=3, max_distinct=2, empty_rate=1000)
@@ -455,17 +516,23 @@ def cases(profile=PROFILE, **treekw):
 def plan(tier, seed):
     if tier == "quick":
         return [{"task": "queries", "examples": 900} for _ in range(16)]
-    return [{"task": "queries", "examples": 25000} for _ in range(32)]
+    return [{"task": "queries", "examples": 16000} for _ in range(32)]
 
 
 def run_task(ctx, task, **kw):
     if task != "queries":
         raise core.HarnessError(f"unknown task {task}")
     n = kw["examples"]
-    a = int(n * 0.7)
-    core.hyp_run(ctx, cases(), lambda c: check_case(ctx, c), a, chunk=150)
-    # category/package-only restrictions (these also run as unversioned queries)
-    core.hyp_run(ctx, cases(PROFILE_CP), lambda c: check_case(ctx, c), n - a, chunk=150, seed_salt=1)
+    # three generators, interleaved in rounds so that a budget stop does not starve one of them:
+    # random trees / category+package-only trees (also run as unversioned queries) / clause-structured
+    gens = [(cases(), 0.35), (cases(PROFILE_CP), 0.25), (cases(structured=True), 0.40)]
+    rounds = max(1, n // 300)
+    for rnd in range(rounds):
+        for gi, (strat, share) in enumerate(gens):
+            if ctx.out_of_time():
+                return
+            k = max(1, int(n * share / rounds))
+            core.hyp_run(ctx, strat, lambda c: check_case(ctx, c), k, chunk=60, seed_salt=rnd * 3 + gi)
 
 
 def replay(ctx, case):
